@@ -1424,6 +1424,41 @@ class Normaliser:
                 i += 1
         process(node.body)
 
+    # ---- branches that cannot be taken for a positive total ---------------------------------------------------------------------
+    def assume_positive_total(self, node):
+        """every property quantifies over positive totals: `if self.total > 0: A else: B` is A (and `<= 0` is B).  A guard that is not
+        implied by positivity (`>= 1`) is left alone."""
+        from .srcmodel import canon_compare
+
+        def verdict(t):
+            if not (isinstance(t, ast.Compare) and len(t.ops) == 1):
+                return None
+            c = canon_compare(t)
+            l_, r_, op_ = U(c.left), U(c.comparators[0]), type(c.ops[0])
+            if r_ in ('0', '0.0') and l_.endswith('.total') and l_.count('.') == 1:
+                if op_ in (ast.Gt, ast.NotEq):
+                    return True
+                if op_ in (ast.LtE, ast.Eq, ast.Lt):
+                    return False
+            return None
+
+        def process(body):
+            i = 0
+            while i < len(body):
+                st = body[i]
+                if isinstance(st, ast.If):
+                    v = verdict(st.test)
+                    if v is not None:
+                        taken = st.body if v else st.orelse
+                        body[i:i + 1] = taken
+                        continue
+                for f in ('body', 'orelse', 'finalbody'):
+                    sub = getattr(st, f, None)
+                    if isinstance(sub, list) and sub and isinstance(sub[0], ast.stmt):
+                        process(sub)
+                i += 1
+        process(node.body)
+
     def run(self):
         node = clone(self.fi.node)
         self.memo_issues = []
@@ -1433,6 +1468,7 @@ class Normaliser:
         self.fuse_item_tables(node)
         self.simplify_options(node)
         self.unroll_table_dispatch(node)
+        self.assume_positive_total(node)
         self.fold_return_temps(node)
         self.positive_tests(node)
         self.inline_single_use_temps(node)
